@@ -1,4 +1,5 @@
 import Rie.Proofs.Sys
+import Rie.Props.FrontEndTable
 
 /-!
 # C06 — Process exit or reported failure yields the right error, then recovery
@@ -91,5 +92,12 @@ example :
     let t := step 0 s (.exit "runtime" "code1" false)
     t.timers = [.invoke 0, .resetTail 2] ∧ (step 0 t (.timer (.resetTail 2))).outs = ["caller0 done err=InvokeDoneFailed body=errjson:Runtime.ExitError"] := by
   decide
+
+/-- **The failure status** (front end): a failed invocation or a failed initialisation is answered with
+    status 502 and exactly the body the emulator core produced (see `C06_failure_body`). -/
+theorem C06_frontend_failure (proxyStatus : Nat) :
+    Rie.FrontEnd.respond (some "ErrInvokeDoneFailed") proxyStatus = { status := 502, chunks := [.body] } ∧
+    Rie.FrontEnd.respond (some "ErrInitDoneFailed") proxyStatus = { status := 502, chunks := [.body] } := by
+  constructor <;> simp [Rie.FrontEnd.respond, Rie.FrontEnd.table, Rie.FrontEnd.run, Rie.FrontEnd.setStatus]
 
 end Rie.Props.C06
